@@ -17,6 +17,7 @@
 import SSEPyVerif.Proofs.Schemes.ChainCfg
 import SSEPyVerif.Proofs.Schemes.SSE2
 import SSEPyVerif.Proofs.Schemes.PiPtr
+import SSEPyVerif.Proofs.Schemes.ANSS16
 namespace SSEPy.C01
 open SSEPy.Sch SSEPy.Sch.Chain
 
@@ -65,6 +66,23 @@ theorem PiPtr.search_stored (raw : RawCfg) (cfg : PiPtrCfg) (hcfg : PiPtr.cfgBui
   obtain ⟨hB, hb, hsz, hplain⟩ := PiPtr.cfgBuild_ok cfg raw hcfg
   exact PiPtr.search_present cfg lv (fun key iv msg c hiv he => ske_dec_enc lv hl cfg.ske hplain key iv msg c hiv he)
     hB hb hsz K db t t' edb hs hsample w ids hm hne hv hnc
+
+/-- ANSS16 Scheme 3 (schemes/ANSS16/Scheme3): the list is padded to 2^p entries and stored whole at level p; HT(S) holds its
+    encrypted true length.  Hypotheses: no 16-byte draw is all zero (`GoodTape`: an all-zero IV would make the block parser
+    stop early), the dummy keywords of the padding loop did not overwrite the keyword (`hpad`), and the labels of every
+    table are distinct (`hnc`). -/
+theorem ANSS16.search_stored (raw : RawCfg) (cfg : ANSSCfg) (hcfg : ANSS16.cfgBuild raw = .ok cfg) (lv : Leaves)
+    (hl : LeafLaws lv) (K : Bytes) (db : DB) (t t' : Tape) (edb : ANSSEDB)
+    (hs : ANSS16.setup cfg lv K db t = .ok (edb, t')) (hg : GoodTape t)
+    (w : Bytes) (ids : List Bytes) (hidlen : ∀ x ∈ ids, x.length = cfg.idSize.toNat)
+    (hpad : ∀ pdb t1, padLoop cfg.idSize.toNat (2 ^ clog2 db.total) (2 ^ clog2 db.total + 1) db db.total t = .ok (pdb, t1) →
+      (w, ids) ∈ pdb)
+    (hnc : ∀ SL TL, ANSS16.setupLists cfg lv K db t = .ok (SL, TL, t') →
+      (SL.map (·.1)).Nodup ∧ ∀ l ∈ TL, (l.map (·.1)).Nodup) :
+    ∃ tk, ANSS16.token cfg lv K w = .ok tk ∧ ANSS16.search cfg lv edb tk = .ok ids :=
+  ANSS16.search_present cfg lv
+    (fun key iv msg c hiv he => ske_dec_enc lv hl cfg.ske (ANSS16.cfgBuild_plain cfg raw hcfg) key iv msg c hiv he)
+    hl.enc_len K db t t' edb hs hg w ids hidlen hpad hnc
 
 /-- SSE-2 (schemes/CGKO06/SSE2): the hypotheses are about this run's PRP values — the addresses of the stored postings
     are pairwise distinct and the address one past a list's end is not a stored address (both follow from the PRP being a
